@@ -3,61 +3,49 @@ C10 — Reset or exit at any point leaks no endpoint/task and has no late effect
 
 The quantifier (every await point reachable during discovery, each handshake step, steady state) is a finite table that is
 regenerated from the source on every run (`Generated.crashPoints`, `Generated.teardownFacts`), so kernel evaluation over
-the whole table is the proof.  The FULL statement is false on the current tree (what remains of finding D6: endpoints are not closed at context exit, nor
-when a reset lands inside the endpoint creation of `_connect`), so:
-  * what does hold is proved for every point (`tasks_never_leak`, `no_observer_left`, `reset_outside_connect_is_clean`);
-  * the leaks are pinned down EXACTLY (`endpoint_leaks_exact`, `tasks_never_leak`), so that any other leak, or
-    a repaired one, changes a theorem;
-  * the full statement is kept visible as `NoLeakAtAnyPoint`, with the witnesses of its negation.
+the whole table is the proof.  The FULL statement (`NoLeakAtAnyPoint`) holds on the current tree (`no_leak_at_any_point`) since the `fix:` commits listed
+in known_findings.json; `each_fix_is_needed` keeps the witnesses of what it looked like before.
 -/
 import GeckoModel.Model.Teardown
 
 namespace GeckoModel.C10
 open GeckoModel GeckoModel.Generated
 
-/-- FULL statement (not provable today): at every suspension point, after a reset or an exit nothing is left behind -/
+/-- FULL statement: at every suspension point, after a reset or an exit nothing is left behind -/
 def NoLeakAtAnyPoint (f : TeardownFacts) (pts : List CrashPoint) : Prop :=
   ∀ p ∈ pts, (afterReset f p).clean = true ∧ (afterReset f p).pumpAlive = true ∧ (afterExit f p).clean = true
 
 instance (f : TeardownFacts) (pts : List CrashPoint) : Decidable (NoLeakAtAnyPoint f pts) := by
   unfold NoLeakAtAnyPoint; exact inferInstance
 
-/-- the full statement fails on the current tree … -/
-theorem full_statement_fails_today : ¬ NoLeakAtAnyPoint teardownFacts crashPoints := by decide
+/-- **FULL statement** (it holds since the three `fix:` commits that make the context exit release the connection, make
+`_connect` release an endpoint created under a spa that was disconnected meanwhile, and take the facade update task's sleep
+out of its `finally` block): at EVERY suspension point of discovery, of the handshake and of steady state, a reset or a
+context exit leaves no endpoint open, no background task alive and no observer registered, and a reset leaves the pump alive -/
+theorem no_leak_at_any_point : NoLeakAtAnyPoint teardownFacts crashPoints := by decide
 
-def repairedFacts : TeardownFacts :=
-  { teardownFacts with disconnectClosesTransport := true, discoverClosesInFinally := true, exitResets := true, pumpSurvivesExceptions := true,
-                       facadeUpdateAwaitsInFinally := false }
+/-- what each of those facts buys (the audited tree had all three `false`; finding D6): without the exit releasing the
+connection the endpoint stays open at every point of the handshake and in steady state; without the check in `_connect` a
+reset inside the endpoint creation leaves the endpoint and seven tasks; with a sleep in the update task's `finally` it lingers -/
+theorem each_fix_is_needed :
+    endpointLeaks { teardownFacts with exitResets := false } crashPoints .exit = ["_connect", "pump-connected"] ∧
+    endpointLeaks { teardownFacts with connectReleasesEndpointIfDisconnected := false } crashPoints .reset = ["_connect"] ∧
+    (∃ p ∈ crashPoints, (afterReset { teardownFacts with connectReleasesEndpointIfDisconnected := false } p).tasksAlive = true) ∧
+    (∃ p ∈ crashPoints, (afterExit { teardownFacts with facadeUpdateAwaitsInFinally := true } p).tasksAlive = true) := by decide
 
-/-- … and it would hold for this very table of suspension points if the five teardown facts were as the property requires
-(transport closed on disconnect, discovery closing in a `finally`, exit resetting, the pump surviving exceptions, no await in
-the facade update task's `finally`, and the endpoint-creation window handled) — i.e. the model is not what makes it fail -/
-theorem full_statement_holds_when_repaired :
-    NoLeakAtAnyPoint repairedFacts (crashPoints.filter (fun p => p.endpoint != .pending || p.proc != "_connect")) := by decide
-
-/-- **every background task of the abandoned connection terminates**, except in two pinned-down situations: a reset that
-lands inside the endpoint creation of `_connect` (the resumed `_connect` then spawns the SPA tasks for an abandoned spa:
-late effects), and an exit in steady state, where the facade's update task may linger in its `finally: await config_sleep` -/
+/-- **every background task of the abandoned connection terminates**, at every point, after a reset and after an exit;
+the exit also ends the pump -/
 theorem tasks_never_leak : ∀ p ∈ crashPoints,
-    ((afterReset teardownFacts p).tasksAlive = true ↔ (p.proc = "_connect" ∧ p.endpoint = .pending)) ∧
-    (afterExit teardownFacts p).pumpAlive = false ∧
-    ((afterExit teardownFacts p).tasksAlive = true ↔ p.proc = "pump-connected") := by decide
+    (afterReset teardownFacts p).tasksAlive = false ∧ (afterExit teardownFacts p).tasksAlive = false ∧
+    (afterExit teardownFacts p).pumpAlive = false := by decide
 
 /-- **no client observer stays registered on abandoned objects** (no late effects through the facade or the spa) -/
 theorem no_observer_left : ∀ p ∈ crashPoints,
     (afterReset teardownFacts p).observersLeft = false ∧ (afterExit teardownFacts p).observersLeft = false := by decide
 
-/-- a reset that lands outside `_connect` and outside steady state (idle pump, running discovery) leaves nothing behind -/
-theorem reset_outside_connect_is_clean : ∀ p ∈ crashPoints, p.proc = "discover" ∨ p.proc = "pump-idle" →
-    (afterReset teardownFacts p).clean = true ∧ (afterReset teardownFacts p).pumpAlive = true := by decide
-
-/-- **the endpoint leaks are exactly these** (what remains of finding D6 after the `fix:` commits that close the transport
-in `disconnect()` and make `discover()` clean up in a `finally`): a reset that lands while `_connect` is still creating
-its endpoint (the only `pending` point of `_connect`), and a context exit during the handshake or in steady state -/
+/-- **no endpoint is left open**, whatever the point and whether it is a reset or an exit -/
 theorem endpoint_leaks_exact :
-    endpointLeaks teardownFacts crashPoints .reset = ["_connect"] ∧
-    ((crashPoints.filter (fun p => (afterReset teardownFacts p).endpointOpen)).map (·.endpoint)) = [.pending] ∧
-    endpointLeaks teardownFacts crashPoints .exit = ["_connect", "pump-connected"] := by decide
+    endpointLeaks teardownFacts crashPoints .reset = [] ∧ endpointLeaks teardownFacts crashPoints .exit = [] := by decide
 
 /-- **the manager keeps working after a reset at any point**: the sequence pump survives (full clause; it holds since the
 `fix:` commit that makes `_sequence_pump` survive exceptions) -/
